@@ -717,8 +717,7 @@ func syncVictim(res *core.Result, r *rand.Rand, nFrames int) {
 			case 1:
 				_, _, _ = V.Inst.RouterV.PingPong.Send(att.inst.IdentityV.IP, false, 0)
 			default:
-				V.Inst.RouterV.HelloPing.VerifExpireHello(att.inst.IdentityV.IP)
-				_, _ = V.Inst.RouterV.HelloPing.Send(att.inst.IdentityV.IP)
+				_, _ = env.Rekey(V.Inst, att.inst.IdentityV.IP)
 			}
 			ms.Settle() // a tree that hands frames to its links from a worker of its own
 			var reqs [][]byte
